@@ -17,6 +17,18 @@ CONN_K: contextvars.ContextVar = contextvars.ContextVar("conn_k", default=None)
 MAX_STEPS = 20000
 
 
+class DTask(asyncio.Task):
+    """asyncio.Task whose hash is its creation index on the loop: sets of tasks (asyncio.TaskGroup._tasks,
+    hypercorn's server_tasks) then iterate in an order that does not depend on memory addresses, which
+    makes cancellation order - and with it the whole execution - a function of the choice sequence.
+    Any order of such a set is realisable in a real run, this pins one."""
+
+    def __hash__(self) -> int:
+        return self._mc_id
+
+    __eq__ = object.__eq__
+
+
 class VLoop(asyncio.BaseEventLoop):
     """BaseEventLoop without a selector: time is virtual and `step()` is one `_run_once` iteration."""
 
@@ -44,7 +56,9 @@ class VLoop(asyncio.BaseEventLoop):
         pass
 
     def _factory(self, loop: Any, coro: Any, **kw: Any) -> asyncio.Task:
-        task = asyncio.Task(coro, loop=loop, **kw)
+        DTask._mc_id = len(self.all_tasks_ever) + 1  # visible to __hash__ during Task.__init__ (task registration)
+        task = DTask(coro, loop=loop, **kw)
+        task._mc_id = len(self.all_tasks_ever) + 1
         self.all_tasks_ever.append(task)
         return task
 
@@ -583,6 +597,9 @@ class AioWorld(WorldBase):
             return True
         if kind == "call":
             return True
+        guard = self.scenario.get("guards", {}).get(kind)
+        if guard is not None:  # scenario-defined pseudo event: enabled when its predicate holds, firing is a no-op
+            return bool(guard(self))
         raise HarnessError(f"unknown event {ev!r}")
 
     def fire(self, ev: tuple) -> None:
